@@ -189,8 +189,14 @@ Variable rc : Ctxt -> Cx.
 Variable cx_of_f : F -> Cx.
 Variable f_is_zero : F -> bool.
 Variable c_is_zero : Cx -> bool.
+Variables enc_s dec_s enc_n dec_n : string -> string.
 Hypothesis rf_pf : forall x, rf (pf x) = x.
 Hypothesis rc_pc : forall c, rc (pc c) = c.
+(* urllib.parse.unquote (quote s) = s; an encoded text has no double quote and no chunk keyword (it has no '[') *)
+Hypothesis dec_enc_s : forall s, dec_s (enc_s s) = s.
+Hypothesis dec_enc_n : forall s, dec_n (enc_n s) = s.
+Hypothesis enc_s_safe : forall s, @Geo.is_chunk_header Ftxt Ctxt (TWord (enc_s s)) = false.
+Hypothesis enc_n_safe : forall s, clean (enc_n s) /\ @Geo.is_chunk_header Ftxt Ctxt (TWord (qs (enc_n s))) = false.
 
 Notation tok := (tok Ftxt Ctxt).
 Notation aval := (aval F Cx).
@@ -211,14 +217,14 @@ Notation tok_container := (@tok_container Ftxt Ctxt).
 Notation tok_dtype := (@tok_dtype Ftxt Ctxt).
 Notation chunks_aux := (@chunks_aux Ftxt Ctxt).
 Notation chunks := (@chunks Ftxt Ctxt).
-Notation print_aval := (@print_aval F Ftxt Cx Ctxt pf pc).
-Notation geo_user_attr := (@geo_user_attr F Ftxt Cx Ctxt pf pc).
-Notation geo_chunks := (@geo_chunks F Ftxt Cx Ctxt pf pc).
-Notation print_geo := (@print_geo F Ftxt Cx Ctxt pf pc).
-Notation conv_data := (@conv_data F Ftxt Cx Ctxt rf f_of_int rc cx_of_f).
-Notation parse_chunk := (@parse_chunk F Ftxt Cx Ctxt rf f_of_int rc cx_of_f).
-Notation parse_geo := (@parse_geo F Ftxt Cx Ctxt rf f_of_int rc cx_of_f f_is_zero c_is_zero).
-Notation geo_step := (@geo_step F Ftxt Cx Ctxt f_of_int f_is_zero c_is_zero).
+Notation print_aval := (@print_aval F Ftxt Cx Ctxt pf pc enc_s).
+Notation geo_user_attr := (@geo_user_attr F Ftxt Cx Ctxt pf pc enc_s enc_n).
+Notation geo_chunks := (@geo_chunks F Ftxt Cx Ctxt pf pc enc_s enc_n).
+Notation print_geo := (@print_geo F Ftxt Cx Ctxt pf pc enc_s enc_n).
+Notation conv_data := (@conv_data F Ftxt Cx Ctxt rf f_of_int rc cx_of_f dec_s).
+Notation parse_chunk := (@parse_chunk F Ftxt Cx Ctxt rf f_of_int rc cx_of_f dec_s).
+Notation parse_geo := (@parse_geo F Ftxt Cx Ctxt rf f_of_int rc cx_of_f f_is_zero c_is_zero dec_s dec_n).
+Notation geo_step := (@geo_step F Ftxt Cx Ctxt f_of_int f_is_zero c_is_zero dec_n).
 Notation vocab_geo := (@vocab_geo F Cx f_is_zero c_is_zero).
 Notation sparse_of := (@sparse_of F Cx f_is_zero c_is_zero).
 Notation not_default := (@not_default F Cx f_is_zero c_is_zero).
@@ -251,22 +257,21 @@ Proof. intros H. unfold Geo.chunks. now rewrite chunks_aux_concat. Qed.
 Definition has_type (t : aty) (v : aval) : Prop :=
   match t, v with
   | TyBool, VBool _ | TyInt, VInt _ | TyFloat, VFloat _ | TyComplex, VCx _ => True
-  | TyString, VStr s => is_chunk_header (TW s) = false
+  | TyString, VStr _ => True
   | _, _ => False
   end.
 
 (* names the importer gives a meaning of its own to *)
 Definition reserved (nm : string) : Prop :=
-  In (qs nm) (map (fun e => snd (fst e)) geo_imp_special) \/ In (qs nm) geo_imp_skip
-  \/ qs nm = geo_imp_facet_ptr \/ qs nm = geo_imp_cell_ptr.
+  In (qs (enc_n nm)) (map (fun e => snd (fst e)) geo_imp_special) \/ In (qs (enc_n nm)) geo_imp_skip
+  \/ qs (enc_n nm) = geo_imp_facet_ptr \/ qs (enc_n nm) = geo_imp_cell_ptr.
 
 Definition attr_ok (a : attr) : Prop :=
-  clean (a_name a) /\ ~ reserved (a_name a) /\ is_chunk_header (TW (qs (a_name a))) = false
-  /\ 1 <= a_ar a /\ Forall (has_type (a_ty a)) (a_vals a).
+  ~ reserved (a_name a) /\ 1 <= a_ar a /\ Forall (has_type (a_ty a)) (a_vals a).
 Definition attrs_ok (l : list attr) : Prop := Forall attr_ok l /\ NoDup (map (@a_name F Cx) l).
 
 Lemma print_aval_not_header t v : has_type t v -> is_chunk_header (print_aval v) = false.
-Proof. destruct t, v; cbn; try contradiction; auto. Qed.
+Proof. destruct t, v; cbn; try contradiction; auto. intros _. apply enc_s_safe. Qed.
 
 Lemma conv_print t v : has_type t v -> conv_data t (print_aval v) = Some v.
 Proof.
@@ -274,6 +279,7 @@ Proof.
   - now destruct b.
   - now rewrite rf_pf.
   - now rewrite rc_pc.
+  - now rewrite dec_enc_s.
 Qed.
 
 Lemma omap_conv_print t vs : Forall (has_type t) vs -> omap (conv_data t) (map print_aval vs) = Some vs.
@@ -331,7 +337,7 @@ Proof. intros H. do 7 (destruct k as [|k]; [reflexivity|]). lia. Qed.
 
 Lemma parse_user_attr k (a : attr) : (k < 7)%nat -> Forall (has_type (a_ty a)) (a_vals a) ->
   parse_chunk (geo_user_attr (user_cont k) a)
-  = Some (pc_attr (Z.of_nat k) (gw (qs (a_name a))) (a_ty a) (a_ar a) (a_vals a)).
+  = Some (pc_attr (Z.of_nat k) (gw (qs (enc_n (a_name a)))) (a_ty a) (a_ar a) (a_vals a)).
 Proof.
   intros Hk Hv. unfold Geo.geo_user_attr. cbn [app].
   apply parse_attr_chunk; [now apply user_cont_code | apply type_string_from | now apply omap_conv_print].
@@ -381,7 +387,7 @@ Proof. apply (parse_attr_chunk _ _ _ _ _ _ 6 TyInt); [reflexivity | reflexivity 
 
 (* ------------------------------------------------------------------ D. the chunk records of a printed mesh *)
 Definition user_pcs (k : nat) (l : list attr) : list chunk :=
-  map (fun a => pc_attr (Z.of_nat k) (gw (qs (a_name a))) (a_ty a) (a_ar a) (a_vals a)) l.
+  map (fun a => pc_attr (Z.of_nat k) (gw (qs (enc_n (a_name a)))) (a_ty a) (a_ar a) (a_vals a)) l.
 Definition nm (k : nat) : tok := gw (snd (fst (special k))).
 Definition vI (zs : list Z) : list aval := map (@VInt F Cx) zs.
 
@@ -431,7 +437,7 @@ Lemma parse_users k (l : list attr) : (k < 7)%nat -> Forall attr_ok l ->
   omap parse_chunk (map (geo_user_attr (user_cont k)) l) = Some (user_pcs k l).
 Proof.
   intros Hk Hl. rewrite omap_map. apply omap_ext_some. intros a Ha.
-  rewrite Forall_forall in Hl. destruct (Hl a Ha) as (_ & _ & _ & _ & Hv). now apply parse_user_attr.
+  rewrite Forall_forall in Hl. destruct (Hl a Ha) as (_ & _ & Hv). now apply parse_user_attr.
 Qed.
 
 Lemma parse_chunks_ok (m : mesh) : geo_ok m -> omap parse_chunk (geo_chunks m) = Some (pchunks m).
@@ -452,7 +458,7 @@ Lemma users_shaped k (l : list attr) : (k < 7)%nat -> Forall attr_ok l ->
   Forall chunk_shaped (map (geo_user_attr (user_cont k)) l).
 Proof.
   intros Hk Hl. apply Forall_forall. intros c Hc. apply in_map_iff in Hc as [a [<- Ha]].
-  rewrite Forall_forall in Hl. destruct (Hl a Ha) as (_ & _ & Hn & _ & Hv).
+  rewrite Forall_forall in Hl. destruct (Hl a Ha) as (_ & _ & Hv). destruct (enc_n_safe (a_name a)) as [_ Hn].
   unfold Geo.geo_user_attr. cbn [app chunk_shaped]. split; [reflexivity|].
   repeat constructor.
   - do 7 (destruct k as [|k]; [reflexivity|]). lia.
@@ -540,7 +546,7 @@ Definition is_ptr_chunk (c : chunk) : bool :=
 
 Lemma not_reserved_neq nm0 s : ~ reserved nm0 ->
   (In s (map (fun e => snd (fst e)) geo_imp_special) \/ In s geo_imp_skip \/ s = geo_imp_facet_ptr \/ s = geo_imp_cell_ptr) ->
-  String.eqb (qs nm0) s = false.
+  String.eqb (qs (enc_n nm0)) s = false.
 Proof.
   intros Hr Hs. apply String.eqb_neq. intros E. apply Hr. unfold reserved. rewrite E. exact Hs.
 Qed.
@@ -578,7 +584,7 @@ Qed.
 Lemma users_not_ptr k l : Forall attr_ok l -> Forall (fun c => is_ptr_chunk c = false) (user_pcs k l).
 Proof.
   intros H. apply Forall_forall. intros c Hc. apply in_map_iff in Hc as [a [<- Ha]].
-  rewrite Forall_forall in H. destruct (H a Ha) as (_ & Hr & _).
+  rewrite Forall_forall in H. destruct (H a Ha) as (Hr & _).
   unfold is_ptr_chunk, pc_attr, Geo.name_is, Geo.gw. cbn [ck_type ck_name is_word].
   rewrite (not_reserved_neq _ geo_imp_facet_ptr Hr) by tauto.
   rewrite (not_reserved_neq _ geo_imp_cell_ptr Hr) by tauto. reflexivity.
@@ -702,10 +708,10 @@ Proof.
 Qed.
 
 Lemma user_not_special k (a : attr) j : (j < 6)%nat -> ~ reserved (a_name a) ->
-  is_special j (pc_attr (Z.of_nat k) (gw (qs (a_name a))) (a_ty a) (a_ar a) (a_vals a)) = false.
+  is_special j (pc_attr (Z.of_nat k) (gw (qs (enc_n (a_name a)))) (a_ty a) (a_ar a) (a_vals a)) = false.
 Proof.
   intros Hj Hr. unfold Geo.is_special.
-  assert (G : forall s, In s (map (fun e => snd (fst e)) geo_imp_special) -> String.eqb (qs (a_name a)) s = false)
+  assert (G : forall s, In s (map (fun e => snd (fst e)) geo_imp_special) -> String.eqb (qs (enc_n (a_name a))) s = false)
     by (intros s Hs; apply (not_reserved_neq _ s Hr); now left).
   do 6 (destruct j as [|j]; [ cbn [special nth geo_imp_special]; unfold Geo.name_is, pc_attr, Geo.gw; cbn [ck_name ck_cont is_word];
                                rewrite G by (cbn; tauto); apply andb_false_r |]).
@@ -740,18 +746,18 @@ Lemma step_atts c n r : gs r (pc_atts c n) = Some r.
 Proof. unfold gs, Geo.geo_step. destruct ptrs as [[[? ?] ?] ?]. reflexivity. Qed.
 
 Lemma step_user k (a : attr) r : (k < 7)%nat -> attr_ok a -> ~ In (a_name a) (map (@s_name F Cx) (get_attrs r k)) ->
-  gs r (pc_attr (Z.of_nat k) (gw (qs (a_name a))) (a_ty a) (a_ar a) (a_vals a))
+  gs r (pc_attr (Z.of_nat k) (gw (qs (enc_n (a_name a)))) (a_ty a) (a_ar a) (a_vals a))
   = Some (upd_attrs r k (fun l => l ++ [sparse_of a])).
 Proof.
-  intros Hk (Hclean & Hres & _ & Har & _) Hfresh. unfold gs, Geo.geo_step. destruct ptrs as [[[ncf fptr] ncc] cptr].
+  intros Hk (Hres & Har & _) Hfresh. destruct (enc_n_safe (a_name a)) as [Hclean _]. unfold gs, Geo.geo_step. destruct ptrs as [[[ncf fptr] ncc] cptr].
   rewrite !user_not_special by (assumption || lia).
-  change (negb (ck_type (pc_attr (Z.of_nat k) (gw (qs (a_name a))) (a_ty a) (a_ar a) (a_vals a)) =? 1)) with false. cbn iota.
-  assert (Hskip : existsb (name_is (pc_attr (Z.of_nat k) (gw (qs (a_name a))) (a_ty a) (a_ar a) (a_vals a))) geo_imp_skip = false).
+  change (negb (ck_type (pc_attr (Z.of_nat k) (gw (qs (enc_n (a_name a)))) (a_ty a) (a_ar a) (a_vals a)) =? 1)) with false. cbn iota.
+  assert (Hskip : existsb (name_is (pc_attr (Z.of_nat k) (gw (qs (enc_n (a_name a)))) (a_ty a) (a_ar a) (a_vals a))) geo_imp_skip = false).
   { apply not_true_is_false. intros E. apply existsb_exists in E as [s [Hs E]].
     unfold Geo.name_is, pc_attr, Geo.gw in E. cbn [ck_name is_word] in E.
     rewrite (not_reserved_neq _ s Hres) in E by tauto. discriminate. }
   rewrite Hskip. cbn [pc_attr ck_cont ck_name ck_ar ck_data ck_dty]. unfold Geo.gw.
-  rewrite (split_quote_qs _ Hclean), (import_items_sparse _ Har), (raw_set_attrs_nat _ _ _ Hk).
+  rewrite (split_quote_qs _ Hclean), dec_enc_n, (import_items_sparse _ Har), (raw_set_attrs_nat _ _ _ Hk).
   f_equal. apply upd_ext; [assumption|]. unfold Geo.sparse_of at 2. cbn [s_items].
   rewrite set_attr_fresh by exact Hfresh. reflexivity.
 Qed.
